@@ -62,7 +62,10 @@ MAGS = {'ABmag', 'STmag'}
 DIMLESS_UNITS = ['one', 'percent']
 TEMP_UNITS = ['K', 'mK', 'kK']
 IRR_UNITS = ['erg/s/cm2', 'W/m2']
-ZS = [F(0), F(1, 2), F(3)]
+# redshifts of constructed sources: the whole admissible interval z > -1 - blueshifts, both sides of 0 (the code
+# branches on `z == 0`), moderate and large redshifts; 1+z is dyadic for all but 20
+ZS = [F(-7, 8), F(-1, 2), F(-1, 4), F(-1, 1024), F(0), F(1, 1024), F(1, 2), F(3), F(20)]
+ZTYPES = ['wavelength_only', 'conserve_flux']
 
 
 def aunit(name):
@@ -160,6 +163,8 @@ def construct(case, args=None):
         kw[name] = py_value(arg, name in ('points', 'lookup_table'))
     if case['cls'] == 'source':
         kw['z'] = O.fl(case['z'])
+        if case.get('ztype'):
+            kw['z_type'] = case['ztype']
     if case['n_models'] != 1:
         kw['n_models'] = case['n_models']
     if case['model'] in TABLES:
@@ -325,7 +330,7 @@ def model_case(case):
         return {k: (q(v) if isinstance(v, F) else v) for k, v in d.items()}
     return {'op': 'c15_build', 'const': case['const'], 'bbconst': case['bbconst'], 'cls': case['cls'], 'z': case['z'],
             'is_model': case['model'] != '<int>', 'model': case['model'], 'n_models': case['n_models'],
-            'keep_neg': case['keep_neg'], 'xs': case['xs'],
+            'keep_neg': case['keep_neg'], 'xs': case['xs'], 'ztype': case.get('ztype') or 'wavelength_only',
             'args': [[n, {'v': a['v'], 'u': munit(a.get('u'))}] for n, a in case['args']]}
 
 
@@ -346,6 +351,13 @@ def sample_tol(case):
     return 1e-9 + 1e-14 * float(case.get('cond', 1.0))
 
 
+def _obs_scale(o):
+    """magnitude against which an exact 0 is judged: the largest sample, and for a table its largest value (a
+    sample next to a knot where the table is 0 inherits the rounding of the knot times the neighbouring values)"""
+    tab = o['params'].get('lookup_table') or []
+    return max([_scale(o['samples'])] + [abs(x) for x in tab if isinstance(x, float) and math.isfinite(x)])
+
+
 def compare_obs(obs, mo, what, stol=1e-9):
     """an observed implementation object against the model's object"""
     if 'err' in obs or 'err' in mo['built']:
@@ -362,7 +374,7 @@ def compare_obs(obs, mo, what, stol=1e-9):
             r = same(o['params'][n], mv, rtol=PRTOL, path='%s.%s' % (what, n))
             if r:
                 return r
-    return same(o['samples'], mo['samples'], rtol=stol, atol=(stol - 1e-9 + 1e-12) * _scale(o['samples']), path=what + '.samples')
+    return same(o['samples'], mo['samples'], rtol=stol, atol=(stol - 1e-9 + 1e-12) * _obs_scale(o), path=what + '.samples')
 
 
 def compare_pair(a, b, what, stol=1e-9):
@@ -387,7 +399,7 @@ def compare_pair(a, b, what, stol=1e-9):
             return 'samples-error:%s' % sx.get('err', sy.get('err')), '%s: sampling %s vs %s' % (
                 what, sx.get('err', 'ok'), sy.get('err', 'ok'))
         return None
-    atol = (stol - 1e-9 + 1e-12) * max(_scale(sx), _scale(sy))
+    atol = (stol - 1e-9 + 1e-12) * max(_obs_scale(x), _obs_scale(y))
     for s, t in zip(sx['ok'], sy['ok']):
         if not close(s, t, atol, stol):
             return 'samples', '%s: sample %r vs %r' % (what, s, t)
@@ -539,7 +551,17 @@ def variants(model):
     return [CLASSES[model][1]]
 
 
-def gen_case(rng, K, BB, model, cls, z, names, focus=None, focus_unit=None, ntab=6):
+def _conserved(vals, unit, zf, conserve):
+    """what a value given in `unit` reads back as at the redshifted wavelength: itself, or - with flux
+    conservation - divided by 1+z (magnitudes: + 2.5 log10(1+z))"""
+    if not conserve:
+        return vals
+    if unit in MAGS:
+        return [v + 2.5 * math.log10(1 + zf) for v in vals]
+    return [v / (1 + zf) for v in vals]
+
+
+def gen_case(rng, K, BB, model, cls, z, names, focus=None, focus_unit=None, ntab=6, ztype=None):
     kinds = kinds_of(model, names)
     units = pick_units(rng, names, kinds, cls, model, focus, focus_unit)
     ref = CLASSES[model][0]
@@ -557,6 +579,9 @@ def gen_case(rng, K, BB, model, cls, z, names, focus=None, focus_unit=None, ntab
     args = {}
     case = {'op': 'c15_build', 'cls': cls, 'z': q(z), 'model': model, 'n_models': 1, 'keep_neg': False,
             'const': K, 'bbconst': BB, 'expect': 'ok', 'tag': 'valid'}
+    if cls == 'source':
+        case['ztype'] = ztype or rng.choice(ZTYPES)
+    conserve = case.get('ztype') == 'conserve_flux' and zf != 0
     positive = model == 'Trapezoid1D'
     amp_unit = units.get('amplitude')
     if model in TABLES:
@@ -662,14 +687,15 @@ def gen_case(rng, K, BB, model, cls, z, names, focus=None, focus_unit=None, ntab
     # ---- what the statement says about sampling in the unit the value was given in
     if cls == 'source' and model in PEAKED and amp_unit in FLUX_UNITS and 'amplitude' in names:
         case['native'] = {'what': 'amplitude_at_reference', 'unit': amp_unit, 'xs': qs([refaa * (1 + zf)]),
-                          'expect': args['amplitude']['v']}
+                          'expect': qs(_conserved([O.fl(args['amplitude']['v'][0])], amp_unit, zf, conserve))}
     if cls == 'source' and model == 'Empirical1D' and units['lookup_table'] in FLUX_UNITS:
         vs = [O.fl(x) for x in args['lookup_table']['v']]
         if case['keep_neg'] or units['lookup_table'] in MAGS or all(v > 0 for v in vs):
             pts_aa = [h_wave(O.fl(x), units['points']) for x in args['points']['v']]
             pairs = sorted(zip(pts_aa, vs))
             case['native'] = {'what': 'table_values', 'unit': units['lookup_table'],
-                              'xs': qs([p * (1 + zf) for p, _ in pairs]), 'expect': qs([v for _, v in pairs])}
+                              'xs': qs([p * (1 + zf) for p, _ in pairs]),
+                              'expect': qs(_conserved([v for _, v in pairs], units['lookup_table'], zf, conserve))}
     if model == 'ConstFlux1D' and amp_unit in FLUX_UNITS:
         case['native'] = {'what': 'constant', 'unit': amp_unit, 'xs': case['xs'],
                           'expect': [args['amplitude']['v'][0]] * len(case['xs']) if zf == 0 else 'constant'}
@@ -800,6 +826,7 @@ def gen_all(rep, rng, n_random, n_reject, ntab):
     from . import c16
     BB = c16.consts()
     cases = []
+    rot = 0
     # exhaustive: every class x every parameter x every compatible unit x z x public class
     for cls in ('source', 'unitless'):
         for model in classes_for(cls):
@@ -807,8 +834,20 @@ def gen_all(rep, rng, n_random, n_reject, ntab):
                 kinds = kinds_of(model, names)
                 for p in names:
                     for un in compatible_units(kinds[p], cls, model):
-                        for z in (ZS if cls == 'source' else [F(0)]):
-                            cases.append(gen_case(rng, K, BB, model, cls, z, names, focus=p, focus_unit=un, ntab=ntab))
+                        if cls != 'source':
+                            cases.append(gen_case(rng, K, BB, model, cls, F(0), names, focus=p, focus_unit=un, ntab=ntab))
+                        elif kinds[p] == 'flux':
+                            # the redshift enters the conversion of flux-like parameters: every z, both redshift types
+                            for z in ZS:
+                                for zt in ZTYPES:
+                                    cases.append(gen_case(rng, K, BB, model, cls, z, names, focus=p, focus_unit=un,
+                                                          ntab=ntab, ztype=zt))
+                        else:
+                            # elsewhere three redshifts per combination, rotating through all of them
+                            for i in range(3):
+                                rot += 1
+                                cases.append(gen_case(rng, K, BB, model, cls, ZS[(rot * 4 + i * 3) % len(ZS)], names,
+                                                      focus=p, focus_unit=un, ntab=ntab))
     n_exh = len(cases)
     for _ in range(n_random):
         cls = 'source' if rng.random() < 0.7 else 'unitless'
@@ -857,7 +896,7 @@ def _slim(c):
     return {k: v for k, v in c.items() if k not in ('_model_out', 'const', 'bbconst')}
 
 
-RULE = ('SourceSpectrum (z in {0, 1/2, 3}) and SpectralElement constructors on every class of _model_param_dict that can be '
+RULE = ('SourceSpectrum (z in {-7/8, -1/2, -1/4, -1/1024, 0, 1/1024, 1/2, 3, 20}, both z_types; flux-like parameters with every z) and SpectralElement constructors on every class of _model_param_dict that can be '
         'built (Box1D, Trapezoid1D, Gaussian1D, GaussianAbsorption1D, GaussianFlux1D in its four keyword variants, Lorentz1D, '
         'RickerWavelet1D, MexicanHat1D, PowerLaw1D, BrokenPowerLaw1D, ExponentialCutoffPowerLaw1D, LogParabola1D, Const1D, '
         'ConstFlux1D, PowerLawFlux1D, Empirical1D, ExtinctionModel1D, BlackBody1D, BlackBodyNorm1D). Exhaustive: each parameter '
